@@ -310,3 +310,12 @@ def run(chk, F):
     chk.run_rule("C18.lru-pin", "LRU: pop never reads the pin list; acquire pins, release unpins to the tail, clear drains it", 5, lru_pin, F)
     chk.run_rule("C18.outdated", "is_outdated == !in-indexer flag, and only the Sentry index wrapper writes the flag (true on insert, false on leave)", 6, outdated, F)
     chk.run_rule("C18.immutable", "no code path assigns to or mutably borrows Record.data; accessors return shared borrows", 4, immutable, F)
+
+
+def thorough(chk):
+    """type-level witnesses: `&mut` to cached data must not type-check (compile-fail doc-tests with compiling twins)"""
+    from sa import witness
+    r = chk.rule("C18.witness", "compile-fail witnesses: no `&mut` to a cached key/value through a handle (each with a compiling twin)", 1)
+    ok, cf, tw, cfb, twb, tail = witness.run()
+    r.require(ok, "witness/src/lib.rs", "compile_fail witnesses + twins", "%d witnesses fail to compile with the pinned error code, %d twins compile" % (cf, tw),
+              "a witness compiled (a handle now hands out `&mut` to cached data) or a twin stopped compiling (%d/%d bad): %s" % (cfb, twb, tail[-400:]))
